@@ -62,9 +62,24 @@ class Machine:
         self.thumb = bool((self.s['cpsr'] >> 5) & 1)
         self.ilen = 4
         self.word = 0
-        self.excl = None
+        if 'excl' in self.s:
+            self.s['excl'] = tuple(self.s['excl']) if self.s['excl'] else None
+        else:
+            self._excl = None
         self.quirks = frozenset()
         self.log = []
+
+    # local exclusive monitor: part of the compared state when the target models it (hooked flavour), private otherwise
+    @property
+    def excl(self):
+        return self.s['excl'] if 'excl' in self.s else self._excl
+
+    @excl.setter
+    def excl(self, v):
+        if 'excl' in self.s:
+            self.s['excl'] = v
+        else:
+            self._excl = v
 
     # ------------------------------------------------------------------------------ configuration
     def arch(self):
